@@ -469,7 +469,7 @@ pub fn worker_main(tier: &str, shard: u64, nshards: u64, budget_s: f64) {
 pub fn run(tier: &str, seed: u64) -> i32 {
     let t0 = Instant::now();
     crate::inst::cleanup_stale_scratch();
-    let budget: f64 = std::env::var("VERIF_BUDGET_S").ok().and_then(|s| s.parse().ok()).unwrap_or(if tier == "thorough" { 1200.0 } else { 45.0 });
+    let budget: f64 = std::env::var("VERIF_BUDGET_S").ok().and_then(|s| s.parse().ok()).unwrap_or(if tier == "thorough" { 1200.0 } else { 44.0 });
     let res = crate::hist::spawn_generic("C04", tier, 16, budget, seed, 0, &[]);
     let mut total = CrashStats { complete: true, ..Default::default() };
     let mut errors = Vec::new();
